@@ -14,6 +14,8 @@ for d in sorted(glob.glob(os.path.join(V, "seeded", "C*", ""))):
             rep.append(k)
         elif v == 0:
             silent.append(k)
+        elif str(v).startswith("1"):
+            rep.append(k + " (thanks to a strengthening made shortly before)")
         else:
             rep.append(k + " (missed at first, reported after strengthening)")
             missed += 1
